@@ -322,6 +322,12 @@ pub fn run_one_child(prop: &str, profile: &str, path: &Path, stall_secs: u64) ->
     Err(format!("child exited with {status:?} without a result"))
 }
 
+/// A CPU stall is seen either in-process (confirmed slow call) or by the supervisor (no
+/// heartbeat): the two forms name the same violation.
+fn is_stall(invariant: &str) -> bool {
+    invariant == "cpu_stall" || invariant == "process_stall"
+}
+
 fn death_text(sig: i32) -> String {
     match sig {
         6 => "SIGABRT (abort: allocation failure, double panic or explicit abort)".into(),
@@ -758,7 +764,7 @@ pub fn check_main<P: Prop>(tier: Tier, seed: u64, workers: usize, extra: Option<
                     let same = vs.iter().any(|v| {
                         v.signature() == *sig
                             || (process_level && v.invariant == f.violation.invariant)
-                            || (f.violation.invariant == "process_stall" && v.invariant == "cpu_stall")
+                            || (is_stall(&f.violation.invariant) && is_stall(&v.invariant))
                     });
                     if !same {
                         ok = false;
@@ -909,7 +915,7 @@ pub fn replay_main(path: &Path) -> i32 {
             let hit = vs.iter().find(|v| {
                 v.signature() == rf.signature
                     || (process_level && v.invariant == rf.violation.invariant)
-                    || (rf.violation.invariant == "process_stall" && v.invariant == "cpu_stall")
+                    || (is_stall(&rf.violation.invariant) && is_stall(&v.invariant))
             });
             for v in &vs {
                 println!("  observed: {} :: {}", v.signature(), v.detail);
